@@ -321,6 +321,64 @@ func ruleOverflowGuard(c *Ctx, r *Report) {
 					break
 				}
 			}
+			// a full-range product cannot be cleared by comparing the operands with constants: every return that
+			// carries it must be dominated by a test of the product itself or of a quotient of the operands
+			if guarded && opname == "*" {
+				strong := false
+				for _, d := range fn.Blocks {
+					cond := ifCond(d)
+					if cond == nil {
+						continue
+					}
+					depRes, depQuo := false, false
+					dataSlice(cond, func(v ssa.Value) bool {
+						if v == val {
+							depRes = true
+						}
+						if q, ok := v.(*ssa.BinOp); ok && (q.Op == token.QUO || q.Op == token.REM) {
+							depQuo = true
+						}
+						return true
+					})
+					if !depRes && !depQuo {
+						continue
+					}
+					leads := false
+					for _, ob := range ovf {
+						for _, s := range d.Succs {
+							if s == ob || (s.Dominates(ob) && len(s.Preds) == 1) {
+								leads = true
+							}
+						}
+					}
+					if !leads {
+						continue
+					}
+					// every return carrying this product is dominated by d
+					all := true
+					eachInstr(fn, func(in2 ssa.Instruction) {
+						ret, ok := in2.(*ssa.Return)
+						if !ok || len(ret.Results) == 0 {
+							return
+						}
+						carries := false
+						for _, l := range c.originSet(ret.Results[0]) {
+							if l == val {
+								carries = true
+							}
+						}
+						if carries && !(d.Dominates(ret.Block()) && d != ret.Block()) {
+							all = false
+						}
+					})
+					if all {
+						strong = true
+					}
+				}
+				if !strong {
+					guarded = false
+				}
+			}
 			if guarded {
 				r.ok(rule, key, c.at(in), desc, how, true)
 			} else {
@@ -815,4 +873,154 @@ func (c *Ctx) arithDispatchers() []*ssa.Function {
 	}
 	sort.Slice(out, func(i, j int) bool { return out[i].Name() < out[j].Name() })
 	return out
+}
+
+// ---------------------------------------------------------------------------
+// R-INT-WRAP (added after seeds C08/C16): outside the checked primitives, Integer arithmetic on a
+// user-controlled full-range value either has a constant partner and branch facts that keep the value away
+// from the wrapping edge, or is listed with its reason.
+
+var intWrapExempt = map[string]string{
+	"engine.Length$1/n-Resolve()": "both operands are non-negative (the length argument was domain-checked, skipped is a count of list cells)",
+}
+
+// userInteger: v is an Integer that comes straight from the user's term (a parameter of type Integer, or a
+// type assertion / type switch on a resolved term), as opposed to a field, a counter or a computed value.
+func (c *Ctx) userInteger(v ssa.Value) bool {
+	resolve := c.method("Env", "Resolve")
+	full := false
+	for _, l := range c.originSet(v) {
+		switch x := l.(type) {
+		case *ssa.Parameter:
+			if isEngNamed(x.Type(), "Integer") && !isPtr(x.Type()) {
+				full = true
+			}
+			if types.IsInterface(x.Type()) {
+				full = true // a Term/Number parameter narrowed by a type switch
+			}
+		case *ssa.Call:
+			if x.Call.StaticCallee() == resolve && resolve != nil {
+				full = true
+			}
+		}
+	}
+	return full
+}
+
+func ruleIntWrap(c *Ctx, r *Report) {
+	const rule = "R-INT-WRAP"
+	prims := map[*ssa.Function]bool{}
+	for _, f := range c.integerPrims() {
+		prims[f] = true
+	}
+	n := 0
+	for _, fn := range c.LibFuncs() {
+		if prims[fn] {
+			continue
+		}
+		eachInstr(fn, func(in ssa.Instruction) {
+			bo, ok := in.(*ssa.BinOp)
+			if !ok || (bo.Op != token.ADD && bo.Op != token.SUB && bo.Op != token.MUL) || !isEngNamed(bo.Type(), "Integer") {
+				return
+			}
+			// loop counters (phi incremented by a constant) are bounded by the data structure they count
+			isCounter := func(v ssa.Value) bool {
+				phi, ok := v.(*ssa.Phi)
+				if !ok {
+					return false
+				}
+				for _, e := range phi.Edges {
+					if e == ssa.Value(bo) {
+						return true
+					}
+				}
+				return false
+			}
+			kx, xConst := constInt(bo.X)
+			ky, yConst := constInt(bo.Y)
+			ux, uy := !xConst && c.userInteger(bo.X) && !isCounter(bo.X), !yConst && c.userInteger(bo.Y) && !isCounter(bo.Y)
+			if !ux && !uy {
+				return
+			}
+			n++
+			key := fmt.Sprintf("%s/%s%s%s", fname(fn), valName(bo.X), bo.Op, valName(bo.Y))
+			desc := "Integer arithmetic on a user-supplied value outside the checked primitives cannot wrap"
+			if why, ok := intWrapExempt[fmt.Sprintf("%s/%s%s%s", fname(fn), valName(bo.X), bo.Op, valName(bo.Y))]; ok {
+				r.ok(rule, key, c.at(bo), desc, "listed: "+why, true)
+				return
+			}
+			switch {
+			case ux && uy:
+				r.bad(rule, key, c.at(bo), desc, "both operands are unconstrained user integers: the result wraps for operands far apart (e.g. max_integer and -1), silently changing sign")
+			case bo.Op == token.MUL:
+				r.bad(rule, key, c.at(bo), desc, "multiplication of a user integer outside mulI")
+			default:
+				v, k := bo.X, ky
+				if uy {
+					v, k = bo.Y, kx
+				}
+				up := (bo.Op == token.ADD) == (k > 0) // value moves up
+				if uy && bo.Op == token.SUB {
+					r.bad(rule, key, c.at(bo), desc, "constant minus a user integer")
+					return
+				}
+				facts := c.factsWithCreation(bo.Block())
+				rg := c.rangeFromFacts(facts, v)
+				bounded := false
+				// constant bounds, or any relational fact against another Integer (x < y implies x <= max-1)
+				if up && rg.hasHi && rg.hi <= math.MaxInt64-abs64(k) {
+					bounded = true
+				}
+				if !up && rg.hasLo && rg.lo >= math.MinInt64+abs64(k) {
+					bounded = true
+				}
+				if !bounded && abs64(k) == 1 {
+					for f := range facts {
+						cmp, ok := f.cond.(*ssa.BinOp)
+						if !ok {
+							continue
+						}
+						op := cmp.Op
+						var onLeft bool
+						switch {
+						case c.sameVar(cmp.X, v):
+							onLeft = true
+						case c.sameVar(cmp.Y, v):
+							onLeft = false
+							op = flipOp(op)
+						default:
+							continue
+						}
+						_ = onLeft
+						if !f.pol {
+							op = negateOp(op)
+						}
+						if up && op == token.LSS {
+							bounded = true // v < something  =>  v+1 does not wrap
+						}
+						if !up && op == token.GTR {
+							bounded = true
+						}
+					}
+				}
+				if bounded {
+					r.ok(rule, key, c.at(bo), desc, "branch facts keep the operand away from the wrapping edge", true)
+				} else {
+					edge := "max_integer"
+					if !up {
+						edge = "min_integer"
+					}
+					r.bad(rule, key, c.at(bo), desc, "no dominating comparison bounds the operand: at "+edge+" the result wraps and the predicate continues with a value outside its relation")
+				}
+			}
+		})
+	}
+	r.analysed(rule, fmt.Sprintf("%d arithmetic sites on user integers outside the primitives", n))
+}
+
+func abs64(k int64) int64 {
+	if k < 0 {
+		return -k
+	}
+	return k
 }
